@@ -3,7 +3,7 @@ import re
 
 from ..lib import facts, mir, paths, src as S, shapes
 from ..lib.mir import is_call, unref, path_str
-from . import common_derive as cd, common_identity as ci, c04, c17
+from . import common_derive as cd, common_identity as ci, common_registry as cr, c02, c04, c17
 
 EXHAUSTIVE = False  # contains a finite corpus of programs (witnesses / declarations)
 LEVEL = "other"
@@ -36,6 +36,8 @@ def run(chk, tier):
     numbering(chk, sf, dprog, cfg)
     precedence(chk, sf, dprog, cfg)
     emission(chk, dprog, cfg)
+    from . import c13
+    c13.attribute_lookup(chk, dprog, cfg)
     describing_side(chk, cfg)
     # translation validation of the derive on the declaration corpus (shared with C09): variant indices, skipped and compact members
     from . import c09
@@ -273,6 +275,10 @@ def describing_side(chk, cfg):
     c17.phantom(chk, prog, prog.config)
     # a description is only found under its own id if identities are coherent (else decoding from the registry loops)
     ci.check_identities(chk, prog, prog.config)
+    # "a decoder that knows only the PortableRegistry": the description reaches the registry unchanged
+    c02.check_config(chk, prog, prog.config)
+    cr.check_register_type(chk, prog, prog.config, rule="R1.2")
+    cr.check_from_registry(chk, prog, prog.config, rule="R1.4")
     ev = shapes.ShapeEval(prog)
     for imp in prog.impls_of("scale_info::TypeInfo"):
         st = prog.ty(imp["self_ty"])
